@@ -321,6 +321,9 @@ def h_publish(eng, case):
     if case.get('suppressed'):
         old = eng.int('old', 0, 2 ** 64 - 1)
         eng.assume(old < others[ids[1]])
+    if case.get('from_callback'):
+        newer = eng.int('newer', 0, 2 ** 64 - 1)
+        eng.assume(newer > others[ids[1]])
 
     async def main(loop):
         holder['loop'] = loop
@@ -343,7 +346,15 @@ def h_publish(eng, case):
             await asyncio.sleep(0)
         n0 = len(stub.sent)
         rets = []
-        for j in range(k):
+        if case.get('from_callback'):
+            # the application publishes from inside the missing-data callback (it is told to be non-blocking, not to
+            # stay away from the instance): a vector that raises one entry arrives, the callback calls new_data()
+            from ndn.encoding import Name, Component
+            inst.on_missing_data = lambda i: rets.append(inst.new_data())
+            comp = make_vector_component([(ids[1], newer)])
+            inst.sync_handler(Name.from_str('/grp') + [comp, Component.from_bytes(bytes(32), 2)], None, None, {})
+            await vloop.sleep_until(loop, loop.at_ms(11))
+        for j in range(0 if case.get('from_callback') else k):
             rets.append(inst.new_data())
             await vloop.sleep_until(loop, loop.at_ms(1 + 10 * (j + 1)))
         n1 = len(stub.sent)
@@ -356,6 +367,10 @@ def h_publish(eng, case):
         eng.fail('publish-announces', 'deadlock')
         return
     n0, n1, rets = r
+    if case.get('from_callback'):
+        eng.check(len(rets) == 1, 'missing-data-callback-iff-raised', {'calls': len(rets)})
+        others = dict(others)
+        others[ids[1]] = newer
     if case.get('suppressed'):
         eng.check(holder.get('state') == SvsState.SyncSuppression, 'outdated-remote-starts-suppression')
     for j, ret in enumerate(rets):
@@ -488,6 +503,8 @@ def cases(tier, seed):
     for pres in ([0, 0], [1, 0], [1, 1]):
         for k in (1, 2):
             cs.append(('publish', {'present': pres, 'publications': k}, {'weight': 5}))
+            if pres[0] and k == 1:
+                cs.append(('publish', {'present': pres, 'publications': 1, 'from_callback': True}, {'weight': 15}))
             if pres[0] and (k == 1 or pres == [1, 0] or tier != 'quick'):
                 cs.append(('publish', {'present': pres, 'publications': k, 'suppressed': True}, {'weight': 15}))
     for n in (1, 2, 3) if tier != 'quick' else (1, 2):
